@@ -120,7 +120,7 @@ def _worker(args):
                 out2 = guarded_run(mod, c, timeout)
                 k1 = sorted(v["key"] for v in out["violations"])
                 k2 = sorted(v["key"] for v in out2.get("violations", []))
-                if k1 != k2:
+                if k1 != k2 and not (k2 and set(k1) == set(k2)):  # the same kinds of violation in another multiplicity (an oracle that stops at the first one per object) is still a reproduced failure
                     raise HarnessError(f"non-reproducible failure on case {json.dumps(c, default=str)[:400]}: {k1} vs {k2}")
                 agg["n_viol"] += len(out["violations"])
                 if len(agg["violations"]) < 40:
